@@ -1,8 +1,10 @@
 """C16 — scanner output is deterministic and independent of irrelevant order."""
 import ast
+import re
 
 from ..core import AnalysisError
 from .. import pyfront as P
+from .. import gsa
 from .. import wattr
 
 EXPLANATION = ('Set-typed attributes and locals are inferred over all of giscanner (assignments of set()/set literals/comprehensions and '
@@ -152,11 +154,36 @@ def check(ctx):
                  'GIRWriter.%s writes children in the stored order of `%s`: the order of sibling elements is then whatever order the model was built in '
                  '(declaration/comment/source-file order), not a fixed function of their names' % (s['method'], it), detail=why[0] if why else None)
     wn = py.func('girwriter', 'GIRWriter._write_namespace')
-    srt = [c for c in P.calls_in(wn) if P.call_name(c) == 'sorted']
-    ok = len(srt) == 1 and P.src(srt[0].args[0]) == 'namespace.values()' and any(k.arg == 'key' for k in srt[0].keywords)
-    nsc = [n for n in wn.body[-1].body if isinstance(n, ast.FunctionDef)] if isinstance(wn.body[-1], ast.With) else []
-    r2.check(ok and nsc and 'return (0, val)' in P.src(nsc[0]) and 'return (1, val)' in P.src(nsc[0]), 'namespace members sorted, aliases first', w.mod.rel, wn.lineno,
-             'top-level elements are not written in sorted order with aliases first')
+    srt = [c for c in P.calls_in(wn) if P.call_name(c) == 'sorted' and c.args and re.match(r'^\w+\.values\(\)$', P.src(c.args[0]))]
+    keyf = None
+    if len(srt) == 1:
+        kw = [k.value for k in srt[0].keywords if k.arg == 'key']
+        if kw:
+            kt = P.src(kw[0])
+            nested = dict((n.name, n) for n in ast.walk(wn) if isinstance(n, ast.FunctionDef) and n is not wn)
+            meths = py.methods('girwriter', 'GIRWriter')
+            if kt in nested:
+                keyf = nested[kt]
+            elif kt.split('.')[-1] in meths and kt.split('.')[0] in ('self', 'GIRWriter'):
+                keyf = meths[kt.split('.')[-1]]
+    okkey = False
+    detail = None
+    if keyf is not None:
+        KS = gsa.Summary(py, 'girwriter', 'GIRWriter._write_namespace', func=keyf, inline_only=())
+        vp = [a_.arg for a_ in keyf.args.args if a_.arg not in ('self', 'cls')][0]
+        AL = r'^isinstance\(%s, ast\.Alias\)$' % re.escape(vp)
+        al = gsa.returns_under(KS, gsa.decide_by([(AL, True)]))
+        ot = gsa.returns_under(KS, gsa.decide_by([(AL, False)]))
+        detail = [[x[0] for x in al], [x[0] for x in ot]]
+
+        def keyt(got):
+            if len(got) == 1 and got[0][2] and isinstance(got[0][1], ast.Tuple) and len(got[0][1].elts) == 2:
+                return py.try_fold(got[0][1].elts[0], py.mod('girwriter')), gsa._unparse(got[0][1].elts[1])
+            return None
+        ka, ko = keyt(al), keyt(ot)
+        okkey = ka is not None and ko is not None and isinstance(ka[0], int) and isinstance(ko[0], int) and ka[0] < ko[0] and ka[1] == ko[1] == vp
+    r2.check(okkey, 'namespace members sorted, aliases first', w.mod.rel, wn.lineno,
+             'top-level elements are not written in sorted order with aliases first (sort key returns %s)' % detail, detail=detail)
     # comma-joined attributes come from lists (ordered) or are sorted
     for e in w.by_tag().get('namespace', [])[:1]:
         for row in e.rows:
@@ -194,22 +221,21 @@ def check(ctx):
     r4 = ctx.rule('R4', 'cache hit/miss controls only parse+store; the tag namespace keeps the first definition', floor=3)
     tm = py.mod('transformer')
     pi = py.func('transformer', 'Transformer._parse_include')
-    fname = pi.args.args[1].arg
-    dep = []
-    for n in P.walk_no_nested(pi):
-        if isinstance(n, ast.stmt) and not isinstance(n, (ast.If, ast.For, ast.While, ast.Try, ast.With)):
-            if any(g.kind in ('if', 'early') and 'parser is None' in g.text() for g in P.guards(n)):
-                dep.append(P.src(n))
-    okd = dep and all(s.startswith('parser = GIRParser(') or s == 'parser.parse(%s)' % fname or s.startswith('self._cachestore.store(') for s in dep)
-    r4.check(okd, 'statements depending on cache hit/miss', tm.rel, pi.lineno, 'statements under `parser is None`: %s' % dep, detail=dep)
+    groups, PI = parse_include_groups(ctx)
+    dep = sorted(k for k, c in groups.items() if depends_on(c, r'_cachestore'))
+    okd = bool(dep) and all(k[1] in ('GIRParser', 'PARSER.parse', 'self._cachestore.store', 'self._cachestore.load') for k in dep) and \
+        {'GIRParser', 'PARSER.parse', 'self._cachestore.store'} <= set(k[1] for k in dep)
+    r4.check(okd, 'statements depending on cache hit/miss', tm.rel, pi.lineno, 'effects of _parse_include that depend on the cache: %s' % [k[1] + ('=' + k[2][:30] if k[0] == 'store' else '') for k in dep], detail=[k[1] for k in dep])
     loops = [n for n in P.walk_no_nested(pi) if isinstance(n, ast.For)]
     r4.check(all(not is_set_expr(l.iter, attrs, locals_, tm, pi) or body_is_order_insensitive(l.body) for l in loops), 'included namespaces registered in sorted order', tm.rel, pi.lineno,
              'loop iterables in _parse_include: %s' % [P.src(l.iter) for l in loops], detail=[P.src(l.iter) for l in loops])
-    pf = py.func('transformer', 'Transformer.parse')
-    st = [(st_, [g.text() for g in P.guards(st_) if g.kind == 'if']) for t, v, st_ in P.stores_in(pf) if isinstance(t, ast.Subscript) and P.src(t.value) == 'self._tag_ns']
-    r4.check(len(st) == 1 and any('node.tag_name not in self._tag_ns' in g for g in st[0][1]), 'first struct/union seen for a tag stays in the tag namespace', tm.rel, pf.lineno,
-             '_tag_ns[...] is assigned under %s: a later typedef of the same tag replaces the primary compound, so the result depends on whether the typedefs or the struct body come first'
-             % [g for s_, g in st], detail=[g for s_, g in st])
+    PF = gsa.summarise(ctx, 'transformer', 'Transformer.parse', inline_only=())
+    pf = PF.func
+    wr = [e for e in PF.effects if (e.kind == 'store' and re.match(r'^self\._tag_ns\[', e.target)) or (e.kind == 'call' and re.match(r'^self\._tag_ns\.(setdefault|update|__setitem__)$', e.target))]
+    bad = [e for e in wr if not (e.target.endswith('.setdefault') or (e.kind == 'store' and gsa.impossible(PF, e, [(r' in self\._tag_ns$', True)])))]
+    r4.check(bool(wr) and not bad, 'first struct/union seen for a tag stays in the tag namespace', tm.rel, pf.lineno,
+             '_tag_ns[...] can be overwritten (%s): a later typedef of the same tag replaces the primary compound, so the result depends on whether the typedefs or the struct body come first'
+             % [(e.target, e.when()[:120]) for e in bad], detail=[(e.target, e.when()[:120]) for e in wr])
     # a cached parse is used only while it is at least as new as its source, compared at full resolution (shared with C18.R2)
     cv = py.func('cachestore', 'CacheStore._cache_is_valid')
     rounding = [P.src(c) for c in ast.walk(cv) if isinstance(c, ast.Call) and P.call_name(c) in ('int', 'round', 'math.floor', 'math.trunc')]
@@ -218,3 +244,46 @@ def check(ctx):
     r4.check(not rounding and not subs and len(mt_attrs) == 2 and len(set(mt_attrs)) == 1, 'cache freshness compared at full mtime resolution', 'giscanner/cachestore.py', cv.lineno,
              'cache freshness is decided on rounded modification times (%s): a dependency GIR rewritten within the same second as its cache entry keeps being served from '
              'the cache, so the output depends on whether the cache was warm' % (rounding + subs), detail=mt_attrs)
+
+
+def depends_on(cond, pattern):
+    """does the truth of the condition change with the atoms matching `pattern`?"""
+    names = [a_ for a_ in gsa.atoms(cond) if re.search(pattern, a_) and not a_.startswith('@')]
+    if not names:
+        return False
+    import itertools
+    base = None
+    for bits in itertools.product((False, True), repeat=min(len(names), 6)):
+        f = gsa.assign(cond, dict(zip(names, bits)))
+        if base is None:
+            base = f
+        elif not gsa.equiv(base, f):
+            return True
+    return False
+
+
+def parse_include_groups(ctx):
+    """effects of Transformer._parse_include (helpers inlined), grouped modulo which parser object (cached or fresh) they act on"""
+    cache = ctx.__dict__.setdefault('_pi_groups', None)
+    if cache is not None:
+        return cache
+    PI = gsa.summarise(ctx, 'transformer', 'Transformer._parse_include', opaque=('_find_include',))
+    alts = set()
+    for e in PI.effects:
+        for m_ in re.finditer(r'self\._cachestore\.load\([^()]*\)|GIRParser\((?:[^()]|\([^()]*\))*\)', e.target + ' ' + e.value):
+            alts.add(m_.group(0))
+
+    def norm(t):
+        for a_ in sorted(alts, key=len, reverse=True):
+            if t == a_:
+                continue
+            t = t.replace(a_, 'PARSER')
+        return t
+    groups = {}
+    for e in PI.effects:
+        if e.kind not in ('call', 'store'):
+            continue
+        k = (e.kind, norm(e.target), norm(e.value) if e.kind == 'store' else '')
+        groups[k] = gsa.disj(groups.get(k, False), e.cond)
+    ctx.__dict__['_pi_groups'] = (groups, PI)
+    return groups, PI
